@@ -24,6 +24,7 @@ _MEM_TABLE = {
     "F16": ("roll", "roll", None, None, True),
     "F20": ("isfinite", "isfinite", "default", "random", None),
     "F21": ("take", "take", None, None, None),
+    "F33": ("argmax", "argmax", None, None, True),
 }
 
 
